@@ -724,6 +724,11 @@ def plan_set_data(w: World, op: dict) -> Plan:
     if data is None and data_id is None:
         return Plan(REFUSE, why="no-arguments", refuse=("ValueError",), call=call,
                     trigger=trigger + "/no-args", slots=(si,))
+    if data is not None and data is not nm.data and data_id is None:
+        try:
+            mt.rule(data)
+        except TypeError:
+            return Plan(EXCLUDED, why="unhashable data without data_id")
     group = mt.group_of(nm)
     if len(group) > 1:
         trigger += "/clone"
